@@ -11,6 +11,7 @@ class Gen:
         self.rng = random.Random(seed)
         self.conf = conf or arr.Conf(nd=self.rng.choice([2, 2, 3]), np=self.rng.choice([1, 2, 2, 3]), copies=2)
         self.a = arr.Array(self.conf, seed=seed if data_seed is None else data_seed)
+        self.a.io_vary = True
         self.names = names or ["A", "B", "E", "F", "K"]
         self.maxblk = maxblk
         self.nextv = 1
@@ -108,6 +109,26 @@ class Gen:
             return None
         self.a.write_file(d, m, vals, mtime=self.stamp())
         return "restore %d/%s as %s (same bytes)" % (d, n, m)
+
+    def op_reinode(self):
+        """a recorded file is replaced by a copy of itself (same bytes, same time stamp): only its inode is new (what a restore
+        from a backup or a move through another file-system leaves)"""
+        st = self.recorded()
+        cands = [(int(d), n) for d in self.rec.D for n, f in st["cf"][d].items()
+                 if n in st["fs"][d] and os.path.isfile(self.a.path(int(d), n)) and os.lstat(self.a.path(int(d), n)).st_nlink == 1]
+        if not cands:
+            return None
+        d, n = self.rng.choice(cands)
+        p = self.a.path(d, n)
+        stt = os.lstat(p)
+        with open(p, "rb") as f:
+            data = f.read()
+        tmp = p + ".reinode"
+        with open(tmp, "wb") as f:
+            f.write(data)
+        os.utime(tmp, ns=(stt.st_mtime_ns, stt.st_mtime_ns))
+        os.replace(tmp, p)
+        return "replace %d/%s by a copy of itself (new inode)" % (d, n)
 
     def op_copy(self):
         """cp -p of a file to another disk (same name, size and time stamp): candidate for copy detection"""
@@ -246,7 +267,7 @@ class Gen:
 
     def op_hardlink(self):
         d = self.rng.randrange(self.conf.nd)
-        fl = [f for f in self._top_files(d) if f not in ("H1", "H2")]
+        fl = [f for f in self._top_files(d) if f not in ("H1", "H2", "L1")]
         if not fl:
             return None
         n = self.rng.choice(fl)
@@ -455,12 +476,18 @@ class Gen:
             pats = []
             for n in rng.sample(names, min(len(names), rng.randint(1, 2))):
                 r = rng.random()
-                if "/" in n and r < 0.4:
+                if "/" in n and r < 0.3:
                     pats.append(n.split("/")[0] + "/")
-                elif r < 0.7:
+                elif r < 0.5:
                     pats.append(n.split("/")[-1])
-                else:
+                elif r < 0.65:
                     pats.append("/" + n)
+                elif r < 0.8:
+                    pats.append("/*")                                   # whole-path pattern: * does not cross a slash
+                elif r < 0.9:
+                    pats.append("/" + n.split("/")[0][:1] + "*")
+                else:
+                    pats.append(n.split("/")[-1][:1] + "*")            # base-name pattern
             f["names"] = pats
         if "missing" in k:
             f["missing"] = True
@@ -537,7 +564,7 @@ class Gen:
                 return "cleanup " + " ".join(gone)
             return res
         if name == "scrub":
-            plan = self.rng.choice(["full", "full", "new", "bad"])
+            plan = self.rng.choice(["full", "full", "new", "bad", "pct100"])
             rules = ["pread,/p,0,shortread,%d" % self.rng.choice([1, 700, 1023])] if self.profile == "detect" and self.rng.random() < 0.3 else None
             return "scrub %s%s -> %s" % (plan, " short reads" if rules else "", self.rec.scrub(plan, rules=rules)[1]["exit"])
         if name == "diff":
@@ -550,7 +577,7 @@ class Gen:
             return "touch command -> %s" % self.rec.touch()[1]["exit"]
 
     WEIGHTS = {
-        "mixed": [("add", 20), ("touchcmd", 3), ("touch", 4), ("delete", 8), ("corrupt", 6), ("corrupt_parity", 4), ("lose_disk", 2),
+        "mixed": [("reinode", 3), ("add", 20), ("touchcmd", 3), ("touch", 4), ("delete", 8), ("corrupt", 6), ("corrupt_parity", 4), ("lose_disk", 2),
                   ("lose_parity", 2), ("sync", 22), ("check", 8), ("fix", 10), ("scrub", 8), ("diff", 4)],
         "syncheavy": [("add", 30), ("touchcmd", 3), ("touch", 6), ("delete", 14), ("restore", 8), ("sync", 40), ("diff", 5), ("check", 5)],
         "ranges": [("add", 18), ("touch", 3), ("delete", 8), ("corrupt", 5), ("corrupt_parity", 3), ("lose_disk", 2),
@@ -562,13 +589,13 @@ class Gen:
                 ("restore", 6), ("samesec", 4), ("sync", 16), ("diff", 10), ("list", 6), ("check", 4)],
         "c19": [("samesec", 6), ("replace", 6), ("add", 12), ("copy", 16), ("move", 10), ("nsec", 6), ("touch", 2), ("delete", 6), ("corrupt", 3), ("lose_disk", 3),
                 ("sync", 26), ("check", 5), ("fix", 12), ("diff", 2)],
-        "filters": [("add", 12), ("touch", 2), ("delete", 10), ("corrupt", 14), ("corrupt_burst", 3), ("corrupt_parity", 5),
+        "filters": [("reinode", 4), ("add", 12), ("touch", 2), ("delete", 10), ("corrupt", 14), ("corrupt_burst", 3), ("corrupt_parity", 5),
                     ("lose_disk", 3), ("lose_parity", 3), ("sync", 14), ("check", 12), ("fix", 22), ("scrub", 14), ("diff", 1)],
         "rehash": [("add", 14), ("copy", 5), ("touch", 2), ("delete", 8), ("corrupt", 6), ("corrupt_parity", 2), ("lose_disk", 2),
                    ("sync", 20), ("check", 6), ("fix", 8), ("scrub", 12), ("diff", 2), ("rehashcmd", 10)],
-        "detect": [("rehashcmd", 2), ("add", 8), ("delete", 3), ("corrupt", 14), ("corrupt_burst", 10), ("corrupt_parity", 14), ("sync", 14),
+        "detect": [("reinode", 2), ("touch", 3), ("rehashcmd", 2), ("add", 8), ("delete", 3), ("corrupt", 14), ("corrupt_burst", 10), ("corrupt_parity", 14), ("sync", 14),
                    ("check", 18), ("scrub", 14), ("fix", 6)],
-        "damage": [("add", 10), ("delete", 6), ("corrupt", 14), ("corrupt_parity", 8), ("lose_disk", 6), ("lose_parity", 5),
+        "damage": [("reinode", 3), ("add", 10), ("delete", 6), ("corrupt", 14), ("corrupt_parity", 8), ("lose_disk", 6), ("lose_parity", 5),
                    ("sync", 18), ("check", 10), ("fix", 16), ("scrub", 8)],
     }
 
